@@ -97,6 +97,7 @@ void fx_factor_gssv(fx_t *x, SuperMatrix *B)
     x->have_LU = 1;
 }
 
+int ref_nonsingular(const slu_vt *vt, csc_q *F, ld *growth_out, ld *minpiv_rel);
 /* common post-factorization oracle: permutations, C09 predicate, extraction */
 void fx_check_structure(fx_t *x, int topo)
 {
@@ -109,7 +110,10 @@ void fx_check_structure(fx_t *x, int topo)
     x->D = extract_LU(x->vt, n, &x->L, &x->U);
     features_of_LU(x->D, x->perm_r, x->perm_c);
     for (size_t k = 0; k < (size_t)n * n; ++k) if (!isfinite((double)x->D->L[k].re) || !isfinite((double)x->D->L[k].im) || !isfinite((double)x->D->U[k].re) || !isfinite((double)x->D->U[k].im))
-        verdict_fail("oracle:LU_not_finite", "L or U contains a non-finite value");
+        {   /* 1/pivot overflows when a column cancels down to a denormal: legitimate only on a matrix that is singular to working precision */
+            csc_q F = factored_view(x->M); ld g = 0, mp = 0;
+            if (!ref_nonsingular(x->vt, &F, &g, &mp)) verdict_skip("non-finite L/U on a matrix that is singular to working precision (reference: min pivot/amax %.2Le)", mp);
+            verdict_fail("oracle:LU_not_finite", "L or U contains a non-finite value (reference elimination: growth %.2Le, min pivot/amax %.2Le)", g, mp); }
 }
 void fx_check_A_unchanged(fx_t *x)
 {
@@ -204,6 +208,14 @@ static void factor_and_check(int which)
            matrix that partial pivoting factors without trouble; only u = 1 must succeed on a nonsingular matrix. */
         if (x.u < 1.0) verdict_skip("info>0 under threshold u<1 (C02 is conditional on info=0)");
         info_nonzero(&x, &F, via);
+    }
+    if (P_int("light", 0)) {
+        /* large free-running stress cases: termination, the history monitor and the sparse well-formedness predicate only
+           (the dense oracles are quadratic in n) */
+        if (!is_perm(x.perm_c, n) || !is_perm(x.perm_r, n)) verdict_fail("oracle:perm_not_bijection", "perm_r or perm_c is not a permutation of 0..%d", n - 1);
+        const char *bad = validate_LU(vt, n, &x.L, &x.U, 1, 1); if (bad) verdict_fail("oracle:LU_malformed", "%s", bad);
+        if (x.have_opt) fx_finish_gstrf(&x);
+        verdict_pass();
     }
     fx_check_structure(&x, 1);
     char msg[400];
